@@ -96,7 +96,7 @@ structure Full (s : Dir D) (d : Dict D) : Prop where
   nmem : ∀ n, n ∈ s.ncCache ↔ n ∈ keys d.notCompleted
 
 section
-variable {H : D → D} {sfx : Str} {ids : List Str} {lost : List Str} {s : Dir D} {d : Dict D}
+variable {cfg : Cfg} {H : D → D} {sfx : Str} {ids : List Str} {lost : List Str} {s : Dir D} {d : Dict D}
 
 theorem globC_eq (hy : hyg sfx ids = true) (h : Sim H sfx ids lost s d) : globC s = keys d.completed := by
   unfold globC
@@ -183,7 +183,7 @@ theorem contains_iff (hf : Full s d) (item : Str) (hp : startsWith item ncPrefix
 /-! ### `_write` -/
 
 theorem writeCore_root (hy : hyg sfx ids = true) (h : Sim H sfx ids lost s d) {i : Str} (hi : i ∈ ids) (data : D) :
-    writeCore H s .root i s.sfx data =
+    writeCore cfg H s .root i s.sfx data =
       if s.mode = .r then (s, .err .ioError)
       else if cN sfx i ∈ keys d.completed then
         (if s.mode = .a then (populate s, .err .ioError) else (populate s, .done none))
@@ -219,7 +219,7 @@ theorem sJson_ne_sLog : (sJson != sLog) = true := by decide
 
 theorem writeCore_nc (hy : hyg sfx ids = true) (h : Sim H sfx ids lost s d) {i : Str} (hi : i ∈ ids) (data : D)
     (hj : ncN i ∉ keys d.completed) :
-    writeCore H s .nc i sJson data =
+    writeCore cfg H s .nc i sJson data =
       if s.mode = .r then (s, .err .ioError)
       else if cN sfx i ∈ keys d.completed ∧ s.mode = .a then (populate s, .err .ioError)
       else ({ populate s with nc := put (populate s).nc (ncN i) data,
